@@ -349,8 +349,9 @@ pub fn gen_sprite(rng: &mut Rng, cfg: &GenCfg) -> (Sprite, PaletteProgram) {
                 LayerKind::Image => {
                     let (w, h) = if cfg.extreme_cels && rng.chance(1, 12) {
                         // extreme aspect ratios and cels much larger than the canvas
-                        match rng.below(4) {
-                            0 => (1u16, rng.range(40, 300) as u16),
+                        match rng.below(5) {
+                            4 if cfg.big => (rng.range(256, 300) as u16, rng.range(256, 300) as u16),
+                            0 | 4 => (1u16, rng.range(40, 300) as u16),
                             1 => (rng.range(40, 300) as u16, 1u16),
                             2 => (rng.range(1, 3) as u16, rng.range(41, 120) as u16),
                             _ => (rng.range(41, 120) as u16, rng.range(1, 3) as u16),
@@ -364,7 +365,14 @@ pub fn gen_sprite(rng: &mut Rng, cfg: &GenCfg) -> (Sprite, PaletteProgram) {
                 }
                 LayerKind::Tilemap(id) => {
                     let ts = sp.tileset(id).unwrap().clone();
-                    let (w, h) = if cfg.big && rng.chance(1, 12) {
+                    let (w, h) = if cfg.big && (ts.tw >= 256 || ts.th >= 256) && rng.chance(1, 2) {
+                        // pixel extent (tiles x tile size) beyond 65535 along one axis
+                        if ts.tw >= 256 {
+                            (rng.range(256, 300) as u16, rng.range(1, 2) as u16)
+                        } else {
+                            (rng.range(1, 2) as u16, rng.range(256, 300) as u16)
+                        }
+                    } else if cfg.big && rng.chance(1, 12) {
                         // stored maps wider / taller than 255 tiles
                         if rng.chance(1, 2) {
                             (rng.range(256, 300) as u16, 1u16)
